@@ -155,6 +155,10 @@ func c05(c *Ctx) {
 		all := func(ev *core.Event) bool { return true }
 		c.errMustPropagate("C05.wrapper", c.fn("(*Conn).ReadMessage"), all, core.Opts{})
 	}
+	r.Rule("C05.reader-wrappers", "every Read method layered over the message reader or the transport passes inner faults on: an inner error that is not io.EOF is never replaced by nil or io.EOF, and bytes delivered with it are not dropped (same rule as C03.reader-wrappers)")
+	if c.readerWrappers("C05.reader-wrappers") < 4 {
+		r.Fail("C05.reader-wrappers", "package", "floor", c.fn("(*joinReader).Read").Pos(), "fewer than the 4 known reader wrappers were analysed")
+	}
 	r.Floor("C05.wrapper", 3)
 	r.Floor("C05.sticky", 5)
 }
